@@ -33,7 +33,7 @@ EXPLANATION = (
     'size headers are the low three bytes of a big-endian 32-bit length read after it is defined; (f) a payload '
     'frame with content always has the next bit written. Not decided: equality of arbitrary byte strings after a '
     'round trip (a value property).')
-EXPLANATION_ADDED = ('(g) writer side: every section of serialize()/serialize_frame_prefix() is written where the previous one ended and every slice assignment keeps the buffer size; pack_string has no rejecting comparison below the capacity of its length byte.')
+EXPLANATION_ADDED = ('(g) writer side: every section of serialize()/serialize_frame_prefix() is written where the previous one ended and every slice assignment keeps the buffer size; pack_string has no rejecting comparison below the capacity of its length byte. The byte-stream transport writes the incremental form completely: size-prefixed prefix of the frame it is given, then its metadata and data through write_data_metadata, once, in that order.')
 EXPLANATION = EXPLANATION.replace(' Not decided', ' ' + EXPLANATION_ADDED + ' Not decided', 1) \
     if ' Not decided' in EXPLANATION else EXPLANATION + ' ' + EXPLANATION_ADDED
 ASSUMPTIONS = COMMON_ASSUMPTIONS + ['struct and cbitstruct format strings mean what their documentation says']
@@ -847,5 +847,49 @@ def rule_g(ctx):
             'string cannot be encoded' % (bad[0][0], cap, cap))
 
 
+def rule_tcp_writer(ctx):
+    """The byte-stream transport writes the incremental form completely: on every normally returning path of
+    TransportTCP's send_frame (through serialize_partial) the stream writer gets the size-prefixed frame prefix of the
+    frame it was given, then - exactly once - the frame's metadata and data through write_data_metadata, and nothing
+    else in between."""
+    rep = ctx.report
+    k = ctx.repo.cls('rsocket.transports.tcp:TransportTCP')
+    f = k.lookup('send_frame')
+    if f is None:
+        raise AnalysisError('C02.e: TransportTCP.send_frame vanished')
+    fp = ('param', f.qualname, f.params()[1])
+    ps = [p for p in ctx.paths(f, k, inline_depth=2, no_inline={'serialize_prefix_with_frame_size_header',
+                                                                  'write_data_metadata', 'wrap_transport_exception'})
+          if p.outcome == 'return']
+    ok, detail = bool(ps), ''
+    for p in ps:
+        seq = []
+        for e in p.events:
+            if e.kind != 'call':
+                continue
+            name = e.data.get('name')
+            args = [strip_epoch(a.term) for a in e.data.get('args', [])]
+            if name == 'write' and args:
+                a = args[0]
+                if a[0] == 'call' and a[1] == 'serialize_prefix_with_frame_size_header' and a[2] and \
+                        strip_epoch(a[2][0]) == fp:
+                    seq.append('prefix')
+                else:
+                    seq.append('other write')
+            elif name == 'write_data_metadata':
+                recv = e.data.get('recv')
+                arg_ok = args and args[0][0] in ('attr', 'bound', 'method') and 'write' in repr(args[0])
+                if recv is not None and strip_epoch(recv.term) == fp and arg_ok:
+                    seq.append('payload')
+                else:
+                    seq.append('payload of something else')
+        if seq != ['prefix', 'payload']:
+            ok, detail = False, 'the writer receives %s instead of the size-prefixed prefix followed by the payload ' \
+                                'of the frame' % (seq or 'nothing')
+    rep.add('C02.e', 'TransportTCP.send_frame / incremental form written completely, in order', f, ok,
+            detail or 'writer.write(serialize_prefix_with_frame_size_header(frame)); '
+                      'frame.write_data_metadata(writer.write) on %d paths' % len(ps))
+
+
 RULES = [('C02.a', rule_a), ('C02.b', rule_b), ('C02.b', rule_b2), ('C02.c', rule_c), ('C02.d', rule_d), ('C02.e', rule_e),
-         ('C02.f', rule_f), ('C02.g', rule_g)]
+         ('C02.f', rule_f), ('C02.g', rule_g), ('C02.e', rule_tcp_writer)]
